@@ -189,6 +189,92 @@ def nodes_view_excludes():
     return ex, span_hash(src, val)
 
 
+def presence_tests():
+    """How each check site of validate_constraints decides that a property is set: 'truthy' (`if [not] x.get_property(p)`)
+    or 'notNone' (`... is [not] None`). Anything else is an ExtractionError."""
+    out = {}
+    for rel, cls_name, key in ((REL_NS, "NetworkService", "svc"), ("fim/user/node.py", "Node", "node")):
+        tree, src = parse(rel)
+        fn = find_func(find_class(tree, cls_name), "validate_constraints")
+        loops = [n for n in ast.walk(fn) if isinstance(n, ast.For) and isinstance(n.iter, ast.Name) and n.iter.id in ("req_props", "forb_props")]
+        if sorted(l.iter.id for l in loops) != ["forb_props", "req_props"]:
+            raise ExtractionError("%s.validate_constraints: loops over req_props / forb_props not found" % cls_name)
+        for lp in loops:
+            if len(lp.body) != 1 or not isinstance(lp.body[0], ast.If) or lp.body[0].orelse:
+                raise ExtractionError("%s.validate_constraints: loop body is not a single `if`" % cls_name)
+            test = lp.body[0].test
+            modes = set()
+            parents = {}
+            for n in ast.walk(test):
+                for ch in ast.iter_child_nodes(n):
+                    parents[ch] = n
+            for n in ast.walk(test):
+                if isinstance(n, ast.Call) and isinstance(n.func, ast.Attribute) and n.func.attr == "get_property":
+                    par = parents.get(n)
+                    if isinstance(par, ast.Compare) and len(par.ops) == 1 and isinstance(par.ops[0], (ast.Is, ast.IsNot)) \
+                            and isinstance(par.comparators[0], ast.Constant) and par.comparators[0].value is None:
+                        modes.add("notNone")
+                    elif isinstance(par, (ast.UnaryOp, ast.BoolOp, ast.If)) or par is None:
+                        modes.add("truthy")
+                    else:
+                        raise ExtractionError("%s.validate_constraints: get_property used in an unrecognised test: %s" % (cls_name, ast.unparse(test)))
+            if len(modes) != 1:
+                raise ExtractionError("%s.validate_constraints: presence test not recognised: %s" % (cls_name, ast.unparse(test)))
+            out[key + ("_req" if lp.iter.id == "req_props" else "_forb")] = modes.pop()
+    return out
+
+
+def value_classes(t):
+    """For every property a row names: the class of the value the sliver holds once it is set through its setter, and
+    whether that class can be falsy (defines __len__ or __bool__)."""
+    import enum
+    import inspect
+    import fim.slivers.network_service as ns
+    import fim.slivers.network_node as nn
+    res = {}
+    for key, cls, rows in (("svc", ns.NetworkServiceSliver, t["svc"]), ("node", nn.NodeSliver, t["node"])):
+        names = []
+        for _, r in rows:
+            for p in r["required_properties"] + r["forbidden_properties"]:
+                if p not in names:
+                    names.append(p)
+        out = []
+        for p in names:
+            setter = getattr(cls, "set_" + p, None)
+            if setter is None or not hasattr(cls, "get_" + p):
+                out.append((p, "unreadable", False))
+                continue
+            params = list(inspect.signature(setter).parameters.values())[1:]
+            if len(params) != 1:
+                raise ExtractionError("setter of %s does not take one value" % p)
+            ann = params[0].annotation
+            samples = []
+            if ann is str or ann is inspect.Parameter.empty:
+                samples = ["x", "10.0.0.1"]
+            elif inspect.isclass(ann) and issubclass(ann, enum.Enum):
+                samples = [list(ann)[0]]
+            elif inspect.isclass(ann):
+                samples = [ann()]
+            else:
+                raise ExtractionError("setter annotation of %s not recognised: %r" % (p, ann))
+            val = None
+            for smp in samples:
+                inst = cls()
+                try:
+                    inst.set_property(p, smp)
+                    val = inst.get_property(p)
+                    break
+                except (ValueError, AssertionError):
+                    continue
+            if val is None:
+                raise ExtractionError("no sample value accepted by the setter of %s" % p)
+            vc = type(val)
+            falsy = any("__len__" in k.__dict__ or "__bool__" in k.__dict__ for k in vc.__mro__)
+            out.append((p, vc.__name__, bool(falsy)))
+        res[key] = out
+    return res
+
+
 def _row(r):
     return ("{ layer := %s, minIfs := %d, numIfs := %d, numSites := %d, numInst := %d, req := %s, forb := %s, ifTypes := %s }" % (
         lean_str(r["layer"]), r["min_interfaces"], r["num_interfaces"], r["num_sites"], r["num_instances"],
@@ -247,10 +333,22 @@ def generate():
     body += "def connectRunsGuardrails : Bool := %s\n\n" % ("true" if conn_g else "false")
     body += "/-- node types `Topology.nodes` leaves out (so `validate` never looks at them) -/\n"
     body += "def nodesViewExcludes : List String := %s\n\n" % sl(excl)
-    body += "def ifaceCountTopologyClass : String := %s\n" % lean_str(exp_cls)
+    body += "def ifaceCountTopologyClass : String := %s\n\n" % lean_str(exp_cls)
+    pt = presence_tests()
+    vc = value_classes(t)
+    body += "/-- how `validate_constraints` decides that a property is set: `true` = by truthiness of the value, `false` = `is not None` -/\n"
+    for k, nm in (("svc_req", "svcReqTruthy"), ("svc_forb", "svcForbTruthy"), ("node_req", "nodeReqTruthy"), ("node_forb", "nodeForbTruthy")):
+        body += "def %s : Bool := %s\n" % (nm, "true" if pt[k] == "truthy" else "false")
+    for key, nm in (("svc", "svcValueClasses"), ("node", "nodeValueClasses")):
+        body += "\n/-- (property, class of the value the sliver holds, class defines `__len__`/`__bool__`) -/\n"
+        body += "def %s : List (String × String × Bool) := %s\n" % (nm, lean_list(
+            ["(%s, %s, %s)" % (lean_str(p), lean_str(c), "true" if f else "false") for p, c, f in vc[key]]))
+    body += "\n/-- constrained properties whose value is an object that can be falsy although it is set (strings are not listed: an\nempty string counts as not set) -/\n"
+    body += "def svcFalsyCapable : List String := %s\n" % sl([p for p, c, f in vc["svc"] if f and c != "str"])
+    body += "def nodeFalsyCapable : List String := %s\n" % sl([p for p, c, f in vc["node"] if f and c != "str"])
     changed = emit("Constraints", body)
     return {"svc_rows": len(t["svc"]), "node_rows": len(t["node"]), "link_rows": len(t["link"]),
             "guard_pairs": pairs, "ctor_guardrails": ctor_g, "connect_guardrails": conn_g,
             "nodes_view_excludes": excl, "node_getters_missing": sorted({p for _, r in t["node"] for p in
                                                                          r["required_properties"] + r["forbidden_properties"]} - set(ng)),
-            "changed": changed, "spans": {"abc_property_graph": h1, "guardrails": h2, "validate": h3}}
+            "presence_tests": pt, "value_classes": vc, "changed": changed, "spans": {"abc_property_graph": h1, "guardrails": h2, "validate": h3}}
